@@ -12,7 +12,11 @@ META = {
     'level_text': 'Theorems for all histories / all directories: delivery_iff (a connection receives a record exactly once iff its most '
                   'recent level choice for the module admits it), off_ident_disconnect_stop, others_unaffected, rotation_keeps_newest '
                   '(any total order on names, any directory, any retention n>0), rotation_off_keeps_all, rotations_bounded (repeated '
-                  'rotations).  The models are tied to frappy/logging.py, dispatcher.py and modulebase.setRemoteLogging by a '
+                  'rotations).  Interleavings (requests under Dispatcher._lock, clean-up of closed connections and emitting threads '
+                  'outside it; atomic unit = one dict access): step_eq_micros (a request is the fold of its primitive table updates), '
+                  'conc_others_unaffected, conc_depends_on_own (every interleaving of the updates of any number of threads leaves each '
+                  'connection the entry its own thread gave it), conc_emit_bystander, setting_shuffle / setting_shuffle_concat (the '
+                  'specification is independent of the interleaving).  The models are tied to frappy/logging.py, dispatcher.py and modulebase.setRemoteLogging by a '
                   'correspondence run on the real handler/dispatcher, and the Lean monitors judge every implementation trace.',
     'level_note': 'Trusted: Lean kernel + axioms propext/Classical.choice/Quot.sound; the level table is regenerated from the source; '
                   'mlzlog, Python logging propagation and os.scandir/remove are modelled, not verified; lexicographic = chronological '
@@ -21,6 +25,9 @@ META = {
         'names of the form <prefix>-YYYY-MM-DD.log sort lexicographically in chronological order',
         'the clock does not run backwards: no log file dated after the file being opened exists (hypothesis `hnewest`)',
         'driver glue: a directory entry is a log file of the handler iff it is named <prefix>-*.log',
+        'interleaving part: one access to a dict (setdefault, pop, [k] = v, list(d.items())) is atomic (CPython GIL); each '
+        'connection is served by one thread at a time; the deterministic scheduler vlib.sched and the dict stand-ins of '
+        'props/c20_conc.py (yield before every access to the handler table, before every send, at every dispatcher lock)',
     ],
     'modelled_not_verified': [
         'mlzlog.LogfileHandler (file naming, symlink `current`, opening with mode a)',
@@ -316,7 +323,10 @@ def run(ctx):
     if os.path.isdir(cdir):
         for fn in sorted(os.listdir(cdir)):
             c = json.load(open(os.path.join(cdir, fn)))
-            (rot_cases if c['kind'] == 'rotation' else route_cases).append(c['case'])
+            if c['kind'] == 'rotation':
+                rot_cases.append(c['case'])
+            elif c['kind'] == 'routing':
+                route_cases.append(c['case'])
     for _ in range(ctx.budget(120, 3000)):
         rot_cases.append(gen_rotation(rng, big))
     for _ in range(ctx.budget(400, 12000)):
@@ -413,11 +423,17 @@ def run(ctx):
                                    'what': f'log routing differs from the chosen levels: ops={small} delivered={o}',
                                    'case': {'kind': 'routing', 'case': {'mods': case['mods'], 'ops': small}},
                                    'detail': {'original_ops': case['ops'], 'first_bad_index': judge['bad'], 'last': last}})
+    # ---------- routing under interleavings ----------
+    from props import c20_conc
+    c20_conc.run_part(ctx, res)
     return res
 
 
 def replay(ctx, rp):
     case = rp['case']
+    if case['kind'] == 'conc':
+        from props import c20_conc
+        return c20_conc.replay(ctx, rp)
     if case['kind'] == 'rotation':
         steps = impl_rotation(case['case'])
         st = steps[case['step']]
